@@ -86,6 +86,19 @@ CHECKS["C20"] = {
     "technique": "TLA+ spec + TLC exhaustive enumeration of shapes; shapes scaled to the real batch size and replayed through the real binary with the library in-process as oracle",
 }
 
+CHECKS["C16"] = {
+    "text": "Syntax.tla: AST x layout -> text over 15 layout dimensions with a reference reader; TLC checks for every enumerated (case, layout) that the rendering reads back as its AST (renderer injective) and that no two words touch. Params.tla: structured spellings of every OpParameter kind with exact rational / milli-arc-second values or the rejection, required/default/last-wins/unknown-key/implicit-gamut rules, a gamut-order machine checked against the declarative reference. Every rendering is compared in the real library with the canonical rendering of its AST (split_into_steps, normalize idempotence, op outcome, steps(), params().given and typed values, apply both directions bit for bit); typed values of t_gamut are read back through Context::params and compared with the exact value within 1 ulp; rejections must name the parameter.",
+    "design_ref": "DESIGN.md §5.16",
+    "note": "quick: 32 cases x <=2 layout choices + 2.3k parameter definitions; thorough: <=3 choices, all definitions of <=3 steps over 3 base steps x 8 modifier combinations x <=1 choice, 4 cases x <=4 choices, 20k parameter definitions. Not generated: indented continuation colons, documented-undefined sexagesimal forms, inf/nan; built-in gamuts not enumerated (exercised through the probe t_gamut); normalize's concrete text and error variants not compared.",
+    "technique": "TLA+ spec + TLC exhaustive enumeration; relational and exact replay into the real library",
+}
+CHECKS["C17"] = {
+    "text": "ProjSyntax.tla (instantiating Pipeline and Syntax): PROJ AST x layout -> text over 8 dimensions and the reference translation; TLC checks inverted pipeline = exact inverse (plans and results), locals win over globals, step order, meaning of omit_fwd/omit_inv, canonical-text agreement with Pipeline!DefText. Each text is instantiated in a Plain context against the reference Geodesy text: outcome, steps, step parameters, bit-identical results both directions, exact operands on the probe operators, parse_proj idempotence, pass-through of the reference text, refusal of init= and nested pipelines.",
+    "design_ref": "DESIGN.md §5.17",
+    "note": "quick: all probe pipelines <=2 steps x modifiers x pipeline inv x clashing globals, 33 shared-operator/refusal cases (cart, helmert, utm, tmerc, merc, lcc, laea, axisswap, unitconvert, noop; a+rf, k, global ellps) x <=2 layout choices; thorough: <=3 steps, <=3 choices. Built-ins only relationally. Not generated: ellps together with a/rf, headerless multi-step texts, comments containing '|'.",
+    "technique": "TLA+ spec + TLC exhaustive enumeration; relational and exact replay into the real library",
+}
+
 _claimed = set(CHECKS)
 _NA_FIXED = {
     "C05": NA_REASON_NUMERIC,
